@@ -84,6 +84,7 @@ type runCtx struct {
 	garble   string
 	replays  string
 	start    time.Time
+	exclude  []string // classifier keys of open known findings (generators steer around them)
 }
 
 func run(id, tier string) (code int) {
@@ -128,6 +129,11 @@ func run(id, tier string) (code int) {
 	pruneOldReplays(rc.replays)
 
 	known := loadFindings()
+	for _, f := range known {
+		if f.Property == id && f.Status == "known" {
+			rc.exclude = append(rc.exclude, f.Key)
+		}
+	}
 	needGarble := false
 	for _, u := range prop.Units {
 		if u.Kind == "e2e" {
@@ -353,6 +359,9 @@ func (rc *runCtx) runUnit(u Unit, w int, extraEnv map[string]string) unitResult 
 	}
 	for k, v := range extraEnv {
 		env = append(env, k+"="+v)
+	}
+	if len(rc.exclude) > 0 {
+		env = append(env, "VERIF_EXCLUDE="+strings.Join(rc.exclude, ","))
 	}
 	for _, kv := range u.Env {
 		env = append(env, kv)
